@@ -115,6 +115,43 @@ def ligamark_family(rng, lib):
     return ds, fonts, masters
 
 
+def postfilter_family(rng, lib, via_lib):
+    """Light / sparse Medium layer / Bold.  The sparse layer holds a mixed glyph M (contour + component A) and a pure
+    composite N (component A) but not A itself; A's on/off pattern is not symmetric under reversal; a POST filter
+    decomposes what is left after the default filters have run (so every composite of the sparse master is drawn from
+    bases interpolated AFTER the cubic-to-quadratic conversion and reversal rewrote them)"""
+    from fontTools.designspaceLib import SourceDescriptor
+    def master(k):
+        d = 30 * k
+        j = [rng.randint(-8, 8) for _ in range(6)]
+        A = {"name": "A", "unicodes": [0x41], "width": Fr(500 + d), "components": [], "anchors": [],
+             "contours": [[(Fr(0), Fr(0), "line"), (Fr(200 + d), Fr(0), "line"), (Fr(200 + d), Fr(300 + j[0]), "line"),
+                           (Fr(120 + d), Fr(380 + d), "off"), (Fr(0), Fr(300 + j[1]), "qcurve")]]}
+        box = [(Fr(300), Fr(0), "line"), (Fr(350 + d), Fr(0), "line"), (Fr(350 + d), Fr(50 + d), "line"), (Fr(300), Fr(50 + d), "line")]
+        M = {"name": "M", "unicodes": [], "width": Fr(500 + d), "contours": [box], "anchors": [],
+             "components": [("A", (Fr(1), Fr(0), Fr(0), Fr(1), Fr(10 + d), Fr(j[2])))]}
+        N = {"name": "N", "unicodes": [], "width": Fr(500 + d), "contours": [], "anchors": [],
+             "components": [("A", (Fr(1), Fr(0), Fr(0), Fr(1), Fr(20 + d), Fr(5 + j[3])))]}
+        gl = [A, M, N]
+        lb = {"com.github.googlei18n.ufo2ft.filters": [{"name": "decomposeComponents", "pre": False}]} if via_lib else {}
+        return {"glyphs": gl, "glyphOrder": ["A", "M", "N"], "kerning": {}, "groups": {}, "lib": lb,
+                "info": {"familyName": "Fam", "styleName": "Master%d" % k, "unitsPerEm": 1000, "ascender": 800, "descender": -200}}
+    masters = [master(0), master(2)]
+    mid = master(1)
+    ds, fonts = dsgen.make_designspace(rng, masters, lib)
+    layer = fonts[0].newLayer("mid")
+    tmp = build_font(mid, lib)
+    for nm in ("M", "N"):
+        gl = layer.newGlyph(nm)
+        gl.width = tmp[nm].width
+        tmp[nm].drawPoints(gl.getPointPen())
+    sd = SourceDescriptor()
+    sd.font, sd.layerName, sd.location, sd.name = fonts[0], "mid", {"Weight": 500}, "master.mid"
+    sd.familyName, sd.styleName = "Fam", "Mid"
+    ds.sources.insert(1, sd)
+    return ds, fonts, masters
+
+
 def explore(ctx):
     import ufo2ft
     from ufo2ft.errors import InvalidFontData
@@ -132,6 +169,22 @@ def explore(ctx):
             ctx.spec_failure(case, "%s raised %s: %s\n%s" % (fn, type(e).__name__, e, traceback.format_exc()[-1000:]))
             continue
         compare_masters(ctx, case, out, sparse=(1, ["acutecomb_gravecomb"]))
+    rng = ctx.subrng("postfilter")
+    from ufo2ft.filters.decomposeComponents import DecomposeComponentsFilter
+    for i in range(ctx.budget(4, 16)):
+        lib = ["ufoLib2", "defcon"][i % 2]
+        via_lib = (i // 2) % 2 == 1
+        ds, fonts, masters = postfilter_family(rng, lib, via_lib)
+        case = {"function": "compileInterpolatableTTFsFromDS", "variant": "sparse layer (mixed + composite, base absent) with a post decomposeComponents filter (%s)" % (
+            "UFO lib" if via_lib else "filters argument"), "lib": lib, "font": jsonable(masters[0]), "last_master": jsonable(masters[-1])}
+        ctx.count(); ctx.klass("TTFsFromDS/sparse+post-filter"); ctx.nontriv(("postfilter", i, ctx.scale))
+        try:
+            kw = {} if via_lib else {"filters": [DecomposeComponentsFilter(pre=False)]}
+            out = [s.font for s in ufo2ft.compileInterpolatableTTFsFromDS(ds, **kw).sources]
+        except Exception as e:
+            ctx.spec_failure(case, "compileInterpolatableTTFsFromDS raised %s: %s\n%s" % (type(e).__name__, e, traceback.format_exc()[-1000:]))
+            continue
+        compare_masters(ctx, case, out, sparse=(1, ["M", "N"]))
     rng = ctx.subrng("families")
     for i in range(ctx.budget(96, 480)):
         lib = ["ufoLib2", "defcon"][i % 2]
